@@ -1502,6 +1502,15 @@ func (x *Exec) doTypeAssert(st *State, ta *ssa.TypeAssert) {
 		res = x.unbox(iv, ta.AssertedType)
 		// values entering from an interface satisfy their type invariant
 		st.add(Implies(ok, And(rangeFacts(res, ta.AssertedType)...)))
+		if _, isPtr := ta.AssertedType.Underlying().(*types.Pointer); isPtr {
+			// a pointer in an interface is the reference itself, or the boxed nil pointer of
+			// that type (makeIface)
+			sPtr := sortOfStatic(ta.AssertedType)
+			box := "box!" + sanitize(string(sPtr))
+			theU.DeclFunc(box, SInt, SInt, sPtr)
+			tag := IntLit(int64(x.P.typeTag(ta.AssertedType)))
+			st.add(Implies(ok, Or(Eq(res, iv), And(Eq(res, Zero), Eq(iv, App(box, SInt, tag, Zero))))))
+		}
 	}
 	if ta.CommaOk {
 		okv := x.freshVar("ta_ok", SBool)
